@@ -5,6 +5,7 @@ package main
 import (
 	"bytes"
 	"context"
+	"os"
 	"sort"
 	"strconv"
 	"strings"
@@ -256,7 +257,7 @@ func (x *ex) stepSnap(idx int, o Op) {
 			lo, hi := unhx(o.Lo), unhx(o.Hi)
 			rev := o.H == 1
 			pan := protect(func() {
-				if _, hasSeq := unionstore.VerifUnionSnapshotSeq(buf); hasSeq {
+				if _, hasSeq := unionstore.VerifUnionSnapshotSeq(buf); hasSeq && os.Getenv("VERIF_C07_RAW_SIT") == "" {
 					// ART: the raw SnapshotIter does not survive tree growth (a repeated or skipped key; see docs/C07.md);
 					// the iterator that tolerates interleaved writes is GetSnapshot().BatchedSnapshotIter
 					x.sit = buf.GetSnapshot().BatchedSnapshotIter(lo, hi, rev)
